@@ -419,7 +419,7 @@ package actions
 //@                 (forall d Id :: deliveries.exists(d) && deliveries.subscription_id(d) == s.ID && deliveries.expires_at(d) > now && same_key(deliveries.message_id(d), m.ID) ==> deliveries.published_at(d) <= deliveries.published_at(p)))) &&
 //@             (!cb.deliveries.not_before_id$set(dc) ==> (forall d Id :: !(deliveries.exists(d) && deliveries.subscription_id(d) == s.ID && deliveries.expires_at(d) > now && same_key(deliveries.message_id(d), m.ID))))
 //@   ensures wakes: [C10] dc != nil ==> wake_on_commit(s.ID)
-//@   ensures wake_frame: forall x uuid.UUID :: wake_on_commit(x) ==> old(wake_on_commit(x)) || (x == s.ID && dc != nil)
+//@   ensures wake_frame: forall x uuid.UUID :: (wake_on_commit(x) ==> old(wake_on_commit(x)) || (x == s.ID && dc != nil)) && (old(wake_on_commit(x)) ==> wake_on_commit(x))
 //@   ensures no_swallowed_failure: [C09] dbfailed() && !old(dbfailed()) ==> err != nil
 //@   modifies CB:deliveries:*, S:dbfailed, S:wake_on_commit
 
@@ -440,7 +440,7 @@ package actions
 //@   ensures messages_kept: forall m Id :: old(messages.exists(m)) ==> messages.exists(m) && messages.topic_id(m) == old(messages.topic_id(m)) && messages.payload(m) == old(messages.payload(m)) &&
 //@             messages.attributes(m) == old(messages.attributes(m)) && messages.order_key(m) == old(messages.order_key(m)) && messages.order_key$null(m) == old(messages.order_key$null(m))
 //@   ensures fanout_sound: err == nil ==> exists now clock :: forall d Id :: !old(deliveries.exists(d)) && deliveries.exists(d) ==>
-//@             deliveries.message_id(d) == a.results.ID && old(live_sub(deliveries.subscription_id(d))) &&
+//@             deliveries.message_id(d) == a.results.ID && live_sub(deliveries.subscription_id(d)) &&
 //@             subscriptions.topic_id(deliveries.subscription_id(d)) == messages.topic_id(a.results.ID) &&
 //@             filter_ok_row(deliveries.subscription_id(d), a.params.Attributes) &&
 //@             deliveries.completed_at$null(d) && deliveries.attempts(d) == 0 && deliveries.published_at(d) == now &&
@@ -453,17 +453,24 @@ package actions
 //@   ensures existing_untouched: [C02] forall d Id :: old(deliveries.exists(d)) ==> delivery_unchanged(d)
 //@   ensures wakes: [C10] err == nil ==> (forall d Id :: !old(deliveries.exists(d)) && deliveries.exists(d) ==> wake_on_commit(deliveries.subscription_id(d)))
 //@   ensures no_swallowed_failure: [C09] dbfailed() && !old(dbfailed()) ==> err != nil
-//@   modifies T:messages:*, T:deliveries:*, CB:*, E:*ent.DeliveryCreate:, S:dbfailed, S:wake_on_commit, F:actions.PublishMessage:*, F:actions.publishMessageResults:*, F:actions.actionTimer:*
+//@   modifies T:messages:*, T:deliveries:*, CB:*, E:*ent.DeliveryCreate:, B:[]*ent.DeliveryCreate:*, S:dbfailed, S:wake_on_commit, F:actions.PublishMessage:*, F:actions.publishMessageResults:*, F:actions.actionTimer:*
 //@   loop 1
 //@     invariant len(dc) <= idx + 1
-//@     invariant forall j int :: {dc[j]} 0 <= j && j < len(dc) ==> dc[j] != nil && cb.deliveries.message_id(dc[j]) == m.ID && cb.deliveries.message_id$set(dc[j]) && cb.deliveries.subscription_id$set(dc[j]) &&
+//@     invariant flags: forall j int :: {dc[j]} 0 <= j && j < len(dc) ==> dc[j] != nil && cb.deliveries.message_id(dc[j]) == m.ID && cb.deliveries.message_id$set(dc[j]) && cb.deliveries.subscription_id$set(dc[j]) &&
 //@                 cb.deliveries.expires_at$set(dc[j]) && cb.deliveries.published_at$set(dc[j]) && cb.deliveries.published_at(dc[j]) == now && cb.deliveries.attempt_at$set(dc[j]) &&
-//@                 !cb.deliveries.completed_at$set(dc[j]) && !cb.deliveries.attempts$set(dc[j]) && !cb.deliveries.id$set(dc[j]) &&
-//@                 (exists k int :: 0 <= k && k <= idx && cb.deliveries.subscription_id(dc[j]) == t.Edges.Subscriptions[k].ID && filter_ok(t.Edges.Subscriptions[k], m.Attributes) &&
-//@                    cb.deliveries.expires_at(dc[j]) == now + t.Edges.Subscriptions[k].MessageTTL && cb.deliveries.attempt_at(dc[j]) == now + t.Edges.Subscriptions[k].DeliveryDelay)
-//@     invariant forall k int :: {t.Edges.Subscriptions[k]} 0 <= k && k <= idx && filter_ok(t.Edges.Subscriptions[k], m.Attributes) ==>
+//@                 !cb.deliveries.completed_at$set(dc[j]) && !cb.deliveries.attempts$set(dc[j]) && !cb.deliveries.id$set(dc[j])
+//@     invariant indexed: forall j int :: {dc[j]} 0 <= j && j < len(dc) ==>
+//@                 0 <= rowindex(t.Edges.Subscriptions, cb.deliveries.subscription_id(dc[j])) && rowindex(t.Edges.Subscriptions, cb.deliveries.subscription_id(dc[j])) <= idx &&
+//@                 t.Edges.Subscriptions[rowindex(t.Edges.Subscriptions, cb.deliveries.subscription_id(dc[j]))].ID == cb.deliveries.subscription_id(dc[j])
+//@     invariant live: forall j int :: {dc[j]} 0 <= j && j < len(dc) ==>
+//@                 live_sub(cb.deliveries.subscription_id(dc[j])) && subscriptions.topic_id(cb.deliveries.subscription_id(dc[j])) == t.ID
+//@     invariant accepted: forall j int :: {dc[j]} 0 <= j && j < len(dc) ==> filter_ok_row(cb.deliveries.subscription_id(dc[j]), m.Attributes)
+//@     invariant stamped: forall j int :: {dc[j]} 0 <= j && j < len(dc) ==>
+//@                 cb.deliveries.expires_at(dc[j]) == now + subscriptions.message_ttl(cb.deliveries.subscription_id(dc[j])) &&
+//@                 cb.deliveries.attempt_at(dc[j]) == now + subscriptions.delivery_delay(cb.deliveries.subscription_id(dc[j]))
+//@     invariant increasing: forall j1 int, j2 int :: {dc[j1], dc[j2]} 0 <= j1 && j1 < j2 && j2 < len(dc) ==>
+//@                 rowindex(t.Edges.Subscriptions, cb.deliveries.subscription_id(dc[j1])) < rowindex(t.Edges.Subscriptions, cb.deliveries.subscription_id(dc[j2]))
+//@     invariant complete: forall k int :: {t.Edges.Subscriptions[k]} 0 <= k && k <= idx && filter_ok_row(t.Edges.Subscriptions[k].ID, m.Attributes) ==>
 //@                 wake_on_commit(t.Edges.Subscriptions[k].ID) && (exists j int :: 0 <= j && j < len(dc) && cb.deliveries.subscription_id(dc[j]) == t.Edges.Subscriptions[k].ID)
-//@     invariant forall j1 int, j2 int :: 0 <= j1 && j1 < j2 && j2 < len(dc) ==> cb.deliveries.subscription_id(dc[j1]) != cb.deliveries.subscription_id(dc[j2])
-//@     invariant forall j int, k int :: 0 <= j && j < len(dc) && idx < k && k < len(t.Edges.Subscriptions) ==> cb.deliveries.subscription_id(dc[j]) != t.Edges.Subscriptions[k].ID
-//@     invariant forall x uuid.UUID :: wake_on_commit(x) ==> old(wake_on_commit(x)) || (exists k int :: 0 <= k && k <= idx && x == t.Edges.Subscriptions[k].ID && filter_ok(t.Edges.Subscriptions[k], m.Attributes))
+//@     invariant wake_frame: forall x uuid.UUID :: wake_on_commit(x) ==> old(wake_on_commit(x)) || (exists k int :: 0 <= k && k <= idx && x == t.Edges.Subscriptions[k].ID && filter_ok_row(t.Edges.Subscriptions[k].ID, m.Attributes))
 //@     invariant !dbfailed() || old(dbfailed())
